@@ -22,6 +22,9 @@ def mk(service, method, client, session, iface, mtype, code, pl):
                             return_code=hdr.SOMEIPReturnCode(code), payload=pl)
 
 
+_OTHER = mk(0x4321, 0x0001, 2, 3, 4, 0x00, 0, b"another message")
+
+
 def one(fields, suffix):
     """-> list of (clause, disc, detail)"""
     service, method, client, session, iface, mtype, code, pl = fields
@@ -32,6 +35,7 @@ def one(fields, suffix):
     except Exception as e:  # noqa: BLE001
         return [("build", "raises", f"{type(e).__name__}: {e}")]
     ref = refcodec.enc_someip(service, method, client, session, iface, mtype, code, pl)
+    _OTHER.build()  # encoding another message must not change what build() returned for this one
     if bytes(b) != ref:
         out.append(("layout", "bytes-differ", f"build()={bytes(b)[:24].hex()}.. reference={ref[:24].hex()}.."))
     try:
@@ -157,6 +161,33 @@ def raising_handler_case(k, excname, seq):
     return out
 
 
+def adapter_case(multicast, seq):
+    """the object asyncio's transport holds is the library's DatagramProtocolAdapter; the application keeps only the
+    transport (asyncio's convention: the transport owns its protocol).  Datagrams handed to the adapter reach the
+    application object, also after a garbage collection."""
+    import gc
+    m = menu()
+    got = []
+
+    class App(sd.SOMEIPDatagramProtocol):
+        def message_received(self, someip_message, addr, multicast):
+            got.append((someip_message, addr, multicast))
+
+    adapter = sd.DatagramProtocolAdapter(App(), is_multicast=multicast)
+    gc.collect()
+    addr = ("192.0.2.5", 30501)
+    try:
+        for _ in range(2):
+            adapter.datagram_received(b"".join(refcodec.enc_someip(*m[i]) for i in seq), addr)
+    except Exception as e:  # noqa: BLE001
+        return [("datagram", f"adapter-raises-{type(e).__name__}", f"{type(e).__name__}: {e}")]
+    want = [mk(*m[i]) for i in seq] * 2
+    if [g[0] for g in got] != want or any(g[1] != addr or g[2] is not multicast for g in got):
+        return [("datagram", "adapter-does-not-deliver", f"two datagrams of {len(seq)} messages handed to the transport's protocol "
+                 f"adapter (multicast={multicast}): the application received {len(got)} messages")]
+    return []
+
+
 def long_datagram_case(count):
     one = [refcodec.enc_someip(0x1000 + (i & 0xFF), i & 0xFFFF, 1, i & 0xFFFF, 1, 0x02, 0, b"") for i in range(count)]
     p = Rec()
@@ -241,6 +272,12 @@ def check(ctx):
                 n += 1
                 distinct.add(("raising", k, excname, seq))
                 rec(raising_handler_case(k, excname, seq), dict(kind="raising-handler", k=k, exc=excname, seq=seq))
+    # (h) through the adapter object that asyncio's transport holds
+    for multicast in (False, True):
+        for seq in ((0,), (1, 2, 5), (4, 0)):
+            n += 1
+            distinct.add(("adapter", multicast, seq))
+            rec(adapter_case(multicast, seq), dict(kind="adapter", multicast=multicast, seq=seq))
     # (d) "any number of messages per datagram": as many empty-payload messages as a UDP datagram can hold
     for count in (255, 256, 1000, 2000, 4094):
         n += 1
@@ -264,6 +301,8 @@ def replay(ctx, body):
     case = body["case"]
     if case["kind"] == "two-datagrams":
         res = two_datagrams_case(tuple(case["seq"]), case["tail"])
+    elif case["kind"] == "adapter":
+        res = adapter_case(bool(case["multicast"]), tuple(case["seq"]))
     elif case["kind"] == "raising-handler":
         res = raising_handler_case(case["k"], case["exc"], tuple(case["seq"]))
     elif case["kind"] == "long-datagram":
